@@ -6,6 +6,8 @@ use crate::rng::Rng;
 use crate::Emitter;
 
 pub fn generate(thorough: bool, seed: u64, em: &mut Emitter) {
+    // encode succeeds whatever the SIZE of valid claims: values of several KB, hundreds of paths, long arrays
+    super::c01::generate_large(seed ^ 14, if thorough { 48 } else { 16 }, em);
     let mut r = Rng::new(seed ^ 0xC14);
     let n = if thorough { 40_000 } else { 3_000 };
     for i in 0..n {
